@@ -240,6 +240,21 @@ def parse_cvc5_values(text):
     return out or None
 
 
+def _own_stmts(fn):
+    stack = list(fn.body)
+    while stack:
+        n = stack.pop()
+        if isinstance(n, ast.Expr) and isinstance(n.value, ast.Constant):
+            continue
+        if isinstance(n, ast.stmt):
+            yield n
+        for ch in ast.iter_child_nodes(n):
+            if isinstance(ch, (ast.FunctionDef, ast.AsyncFunctionDef, ast.ClassDef, ast.Lambda)):
+                continue
+            if isinstance(ch, (ast.stmt, ast.ExceptHandler, ast.match_case)):
+                stack.append(ch)
+
+
 class FunctionResult:
     def __init__(self, target):
         self.target = target
@@ -260,6 +275,9 @@ class FunctionResult:
         self.samples = []
         self.normal_paths = 0
         self.exc_paths = {}
+        self.body_statements = 0
+        self.body_covered = 0
+        self.uncovered_lines = []
 
     def to_json(self):
         d = dict(self.__dict__)
@@ -298,6 +316,7 @@ def verify_contract(repo_root: str, target: str, z3_ms=None, budget_s=600.0) -> 
             res.reason = f"{len(cases)} type cases"
             return res
         all_obs: list[Obligation] = []
+        executed: set = set()
         for case in cases:
             label = ",".join(f"{k}:{t.label}" for k, t in case.items())
             ex = Exec(repo, c, REGISTRY, case_label=label, budget_s=budget_s)
@@ -307,6 +326,7 @@ def verify_contract(repo_root: str, target: str, z3_ms=None, budget_s=600.0) -> 
                 res.status = "undecided"
                 res.reason = f"[{label}] unsupported: {u}"
                 return res
+            executed |= ex.executed
             dead = [t for t, (n, ok) in ex.callee_stats.items() if n > 0 and ok == 0]
             if dead:
                 res.status = "undecided"
@@ -320,6 +340,16 @@ def verify_contract(repo_root: str, target: str, z3_ms=None, budget_s=600.0) -> 
             res.assumptions |= ex.assumptions_used
             res.solver_s += ex.solver_time
             all_obs.extend(ex.obligations)
+        # coverage canary: the body of the function under contract must actually have been executed
+        body = [n for n in _own_stmts(node)]
+        covered = [n for n in body if id(n) in executed]
+        res.body_statements = len(body)
+        res.body_covered = len(covered)
+        if body and not covered:
+            res.status = "error"
+            res.reason = "vacuous: no statement of the function under contract was executed on any path"
+            return res
+        res.uncovered_lines = sorted({n.lineno for n in body if id(n) not in executed})[:12]
         # "nothing else escapes": one obligation per function, failed by any escape.* obligation
         if not any("/escape." in ob.oid for ob in all_obs):
             all_obs.append(Obligation(f"{c.target}/noescape", [], z3.BoolVal(True), "", f"no exception class outside {sorted(c.raises)} reaches the caller on any path", ""))
@@ -381,6 +411,13 @@ def run_one_path(ex: Exec, repo, c: Contract, mod, node, case, res: FunctionResu
     args = []
     kwargs = {}
     extra_pos = []
+    all_names = set(pos_names) | {p.arg for p in a.kwonlyargs}
+    if any(n not in all_names and not n.startswith("*") for n in params) and node.decorator_list:
+        # the public callable is a decorator's wrapper with its own signature (`val, *args, **kwargs`):
+        # contract parameters are passed positionally, in the order the contract lists them,
+        # except those that are keyword-only parameters of the wrapped function
+        kwonly = {p.arg for p in a.kwonlyargs}
+        pos_names = [n for n in params if n not in kwonly]
     for name, v in params.items():
         if name in pos_names:
             continue
